@@ -134,7 +134,7 @@ theorem singledash_split (name g3 : Str) (hn : SName name) (hg : G3 g3) :
       ([⟨sdHead name, if sdRest name g3 = [] then [] else [sdRest name g3]⟩], true) := by
   rw [isOption_single name g3 .singleDash hn hg]
   unfold singleSplit sdRest sdHead
-  have hle := utf8Width_le name
+  have hle := utf8Width_le_len name
   by_cases h : (name.length > utf8Width name || g3.length > 0) = true
   · have : ¬ (name.drop (utf8Width name) ++ g3 = []) := by
       intro e
